@@ -159,6 +159,21 @@ def _modify(self, op):
         elif kind == 'clear': m2.coll_assign(op['oid'], op['attr'], [])
         elif kind == 'delete': m2.delete(op['oid'])
         m2.check_links()
+        if kind != 'delete':
+            # an operation whose cascade deletes one of its OWN arguments (or, for a set() call with several
+            # relationship arguments, deletes anything at all) has no specified outcome: outside the model
+            refs = set()
+            for v in list(op.get('kw', {}).values()) + ([op['val']] if 'val' in op else []):
+                t, x = dec(v)
+                if t == 'ref' and isinstance(x, int): refs.add(x)
+                elif t == 'set': refs.update(i for i in x if isinstance(i, int))
+            refs.update(i for i in op.get('items', []) if isinstance(i, int))
+            if kind != 'create': refs.add(op['oid'])
+            if any(r_ not in m2.objs for r_ in refs):
+                raise hmodel.ModelRefuse('model_gap', 'the operation deletes one of its own arguments')
+            if kind == 'setmany' and len(m2.objs) < len(w.objs) and \
+                    sum(1 for v in op['kw'].values() if dec(v)[0] != 'scalar') > 1:
+                raise hmodel.ModelRefuse('model_gap', 'set() with several relationship arguments and a cascade')
     except hmodel.ModelRefuse as e:
         refuse = e
     except KeyError as e:
